@@ -112,7 +112,7 @@ func runC16(c *ctx) {
 			if r.chance(1, 3) {
 				s.shift(s.ticketOf(b), pick(r, []time.Duration{time.Minute, 6 * time.Minute, 11 * time.Minute}))
 			}
-			if k%2 == 1 {
+			if r.chance(1, 2) {
 				// an entry WITHOUT expiry (restored from a dump, PERSISTed by an operator, written by an older version): still only ever READ by a proxy
 				func() {
 					defer func() { recover() }()
